@@ -678,6 +678,7 @@ func (s *Service) serve(nc Conn) error {
 	}
 
 	atomic.StoreInt32(&s.state, stateStarted)
+	verifNote("sv.started", "", s.workerCount)
 
 	err = s.subscribe()
 	if err != nil {
@@ -715,6 +716,8 @@ func (s *Service) Shutdown() error {
 
 	// Wait for all workers to be done
 	s.wg.Wait()
+	verifNote("sd.waited", "", 0)
+	verifGate("shutdown.waited")
 
 	s.inCh = nil
 	s.nc = nil
@@ -727,10 +730,15 @@ func (s *Service) Shutdown() error {
 
 // close calls Close on the NATS connection, and closes the incoming channel
 func (s *Service) close() {
+	verifGate("close.begin")
 	s.mu.Lock()
 	s.workqueue = nil
+	verifNote("c.close", "", 0)
 	s.mu.Unlock()
+	verifGate("close.unlocked")
 	s.workcond.Broadcast()
+	verifNote("c.broadcast", "", 0)
+	verifGate("close.broadcast")
 
 	s.nc.Close()
 	close(s.inCh)
@@ -966,6 +974,7 @@ func (s *Service) handleRequest(m *nats.Msg) {
 		group = mh.Group
 	}
 
+	verifNote("s.request", m.Reply, 0)
 	s.runWith(group, func() {
 		s.processRequest(m, rtype, rname, method, mh)
 	})
@@ -975,8 +984,11 @@ func (s *Service) handleRequest(m *nats.Msg) {
 // defined by the worker ID (wid).
 func (s *Service) runWith(wid string, cb func()) {
 	if atomic.LoadInt32(&s.state) != stateStarted {
+		verifNote("s.refused", wid, 0)
 		return
 	}
+	verifNote("s.checked", wid, 0)
+	verifGate("runWith.checked")
 
 	s.mu.Lock()
 	// Get current work queue for the resource
@@ -997,11 +1009,16 @@ func (s *Service) runWith(wid string, cb func()) {
 			s.rwork[wid] = w
 		}
 		s.workqueue = append(s.workqueue, w)
+		verifNote("s.enq.new", wid, len(s.workqueue))
 		s.mu.Unlock()
+		verifGate("runWith.unlocked")
+		verifNote("s.sigbegin", wid, 0)
 		s.workcond.Signal()
+		verifNote("s.sigend", wid, 0)
 	} else {
 		// Append callback to existing work queue
 		w.queue = append(w.queue, cb)
+		verifNote("s.enq.app", wid, len(w.queue))
 		s.mu.Unlock()
 	}
 }
